@@ -112,6 +112,8 @@ def run(ctx: Ctx) -> None:
     shapes.rule_kron_layout(ctx)
     shapes.rule_bit_order(ctx, ["graphiq/backends/density_matrix/functions.py", "graphiq/backends/density_matrix/state.py", "graphiq/backends/density_matrix/compiler.py"])
     tableau.rule_measure_rowset(ctx)
+    tableau.rule_measure_indices(ctx)
+    tableau.rule_outcome_used(ctx)
     tableau.rule_phase_combine(ctx)
     gatesum.rule_derived_gates(ctx)
     rule_gate_table(ctx)
